@@ -147,6 +147,43 @@ pub fn run(run: &mut Run) {
         }
         acc.outcome2("history", "visited");
     });
+    // IPMB-shaped frames (whole frames, not prefixes) on the device they name and on another one
+    run.sweep_chunked("IPMB-shaped frames through the probe, on the addressed device and on another", crate::props::dec::IPMB_LIKE_N, |acc, lo, hi| {
+        let mut buf = Vec::with_capacity(40);
+        for i in lo..hi {
+            crate::props::dec::ipmb_like(i, &mut buf);
+            acc.evals += 1;
+            for a in [buf[0] >> 1, 0x23] {
+                let owned = Owned::new(&Cfg::simple(a));
+                let ctx = owned.ctx();
+                let got = subject::get_length(&ctx, &buf);
+                acc.trans += 1;
+                acc.validated += 1;
+                if let Some(d) = judge_one(&got, &buf) {
+                    let spec = CtxSpec::fresh(Cfg::simple(a));
+                    acc.violation(3, "probe-ipmb-shaped", d, || json!({"prop": "C17", "check": "probe-history", "spec": spec, "input": hex(&buf), "ctx": 0}));
+                }
+            }
+        }
+    });
+    // inputs whose total length sits around 2^16 (length arithmetic narrower than usize)
+    run.sweep("prefix [0x46, 0x0F, b2] for all b2 x total lengths 65533..=65540", 256 * 8, |acc, i| {
+        let total = 65533 + (i / 256) as usize;
+        let mut buf = vec![0x5Au8; total];
+        buf[0] = 0x46;
+        buf[1] = 0x0F;
+        buf[2] = i as u8;
+        let owned = Owned::new(&Cfg::simple(0x23));
+        let ctx = owned.ctx();
+        let got = subject::get_length(&ctx, &buf);
+        acc.evals += 1;
+        acc.trans += 1;
+        acc.validated += 1;
+        let exp = LenOut::Ok(buf[2] as usize + 4);
+        if got != exp {
+            acc.violation(2, "probe-huge", format!("get_length on {} bytes starting 46 0f {:02x} = {:?}, expected {:?}", total, buf[2], got, exp), || json!({"prop": "C17", "check": "huge", "b2": buf[2], "total": total}));
+        }
+    });
     // cross-kind histories ending in a probe
     crate::explore::stateless(
         run,
@@ -207,6 +244,17 @@ pub fn run(run: &mut Run) {
 }
 
 pub fn replay(case: &Value) -> Result<ReplayOut, String> {
+    if case["check"].as_str() == Some("huge") {
+        let total = get_u64(case, "total")? as usize;
+        let mut buf = vec![0x5Au8; total];
+        buf[0] = 0x46;
+        buf[1] = 0x0F;
+        buf[2] = get_u64(case, "b2")? as u8;
+        let owned = Owned::new(&Cfg::simple(0x23));
+        let got = subject::get_length(&owned.ctx(), &buf);
+        let exp = LenOut::Ok(buf[2] as usize + 4);
+        return Ok(ReplayOut { violations: (got != exp).then(|| format!("{:?} != {:?}", got, exp)).into_iter().collect(), observed: format!("{:?}", got) });
+    }
     if case["check"].as_str() == Some("history") {
         let (diffs, _last, observed) = crate::explore::replay_history(case)?;
         let history: Vec<Event> = get_de(case, "history")?;
